@@ -12,9 +12,20 @@
                                         current-thread runtime, so the lock is released before drop() returns; the
                                         code before the repair only logged a warning and the background tasks kept
                                         CoreInner (and its LockFile) alive until their runtime was shut down
+     Tree::create_checkpoint / Tree::restore_from_checkpoint (src/lsm.rs, src/checkpoint.rs): operations of a LIVE
+                                        store that rewrite its directory: the checkpoint flushes the memtables and
+                                        copies the store's files to a side directory; the restore removes the data
+                                        sub-directories (DatabaseCheckpoint::clear_current_state: sstables, wal,
+                                        manifest, vlog), copies the checkpoint's back, then reloads manifest / WAL /
+                                        memtables.  Whether clear_current_state touches ONLY those named
+                                        sub-directories (and so never the NAME `LOCK` at the top level of the
+                                        directory) is the variant field restore_keeps_lock_name
    and the OS side (assumed, not verified): flock(2) — one exclusive advisory lock per open file
-   description of the inode; released when the last descriptor of that description is closed, in
-   particular when the process dies.
+   description of an INODE; released when the last descriptor of that description is closed, in
+   particular when the process dies.  The lock belongs to the inode, not to the name: `<dir>/LOCK` names
+   an inode (fs fields f_lock / f_lock_ino); an opener that finds no such name creates a NEW inode; the
+   kernel's lock table (st_flock) is per inode.  A holder whose LOCK name was unlinked keeps its lock on
+   the nameless inode — and excludes nobody any more.
    Every step of every opener is a separate transition, so that the theorems quantify over all
    interleavings of all openers in any number of processes.
    Definitions only; statements in LockSpec.v, proofs in Lock_proofs.v. *)
@@ -29,42 +40,68 @@ Definition proc := nat.   (* an operating-system process *)
 Record variant := {
   trunc_on_open : bool;         (* OpenOptions::truncate(true) on LOCK: emptied by open(), before try_lock *)
   subdirs_before_lock : bool;   (* create_directory_structure() makes ALL sub-directories before Core::new *)
-  detached_drop_closes : bool   (* Tree::drop outside a runtime runs Core::close itself (temporary runtime + block_on) *)
+  detached_drop_closes : bool;  (* Tree::drop outside a runtime runs Core::close itself (temporary runtime + block_on) *)
+  restore_keeps_lock_name : bool (* restore_from_checkpoint on a live store (clear_current_state + copy back) removes and
+                                   re-creates only the named data sub-directories: the name `LOCK` is never touched *)
 }.
-Definition pinned : variant := {| trunc_on_open := true; subdirs_before_lock := true; detached_drop_closes := false |}.
+Definition pinned : variant := {| trunc_on_open := true; subdirs_before_lock := true; detached_drop_closes := false; restore_keeps_lock_name := true |}.
 (* the first repair (F19): `.truncate(true)` removed (set_len(0) after the lock already empties the file) *)
-Definition fixed : variant := {| trunc_on_open := false; subdirs_before_lock := true; detached_drop_closes := false |}.
+Definition fixed : variant := {| trunc_on_open := false; subdirs_before_lock := true; detached_drop_closes := false; restore_keeps_lock_name := true |}.
 (* a further repair (F27): only the base directory (needed for LOCK) before the lock, the rest after it *)
-Definition fixed_dirs : variant := {| trunc_on_open := false; subdirs_before_lock := false; detached_drop_closes := false |}.
+Definition fixed_dirs : variant := {| trunc_on_open := false; subdirs_before_lock := false; detached_drop_closes := false; restore_keeps_lock_name := true |}.
 (* the third repair (F28): a Tree dropped outside a runtime closes the store before drop() returns *)
-Definition fixed_drop : variant := {| trunc_on_open := false; subdirs_before_lock := false; detached_drop_closes := true |}.
+Definition fixed_drop : variant := {| trunc_on_open := false; subdirs_before_lock := false; detached_drop_closes := true; restore_keeps_lock_name := true |}.
+(* NOT a state the sources ever were in: the repaired code plus a restore whose clear_current_state also removes every
+   regular file at the top level of the database directory — LOCK among them (seeded change C19d).  Regression record. *)
+Definition restore_unlinks : variant := {| trunc_on_open := false; subdirs_before_lock := false; detached_drop_closes := true; restore_keeps_lock_name := false |}.
 
 Record oopts := { op_valid : bool; op_vlog : bool; op_ver : bool }.
 Definition plain : oopts := {| op_valid := true; op_vlog := false; op_ver := false |}.
 
-(* content of <dir>/LOCK: the owner's pid, for debugging *)
+(* content of the inode that <dir>/LOCK names (the owner's pid, for debugging); LAbsent: no such name *)
 Inductive lcontent := LAbsent | LEmpty | LPid (p : proc).
 Definition lcontent_eqb (a b : lcontent) : bool :=
   match a, b with
   | LAbsent, LAbsent => true | LEmpty, LEmpty => true | LPid p, LPid q => Nat.eqb p q | _, _ => false
   end.
 
-(* the directory tree: which directories exist, LOCK, and a version counter standing for every
+(* the directory tree: which directories exist, LOCK — the content AND the identity (inode number) of the file
+   that the name denotes now —, the next unused inode number, and a version counter standing for every
    other file (manifest, WAL segments, tables, value log): bumped by each step that may write them *)
-Record fs := { f_base : bool; f_std : bool; f_vlog : bool; f_ver : bool; f_lock : lcontent; f_data : nat }.
-Definition fs0 : fs := {| f_base := false; f_std := false; f_vlog := false; f_ver := false; f_lock := LAbsent; f_data := 0 |}.
+Record fs := { f_base : bool; f_std : bool; f_vlog : bool; f_ver : bool;
+               f_lock : lcontent; f_lock_ino : nat; f_ino_next : nat; f_data : nat }.
+Definition fs0 : fs := {| f_base := false; f_std := false; f_vlog := false; f_ver := false;
+                          f_lock := LAbsent; f_lock_ino := 0; f_ino_next := 1; f_data := 0 |}.
 Definition set_lock (f : fs) (c : lcontent) : fs :=
-  {| f_base := f_base f; f_std := f_std f; f_vlog := f_vlog f; f_ver := f_ver f; f_lock := c; f_data := f_data f |}.
+  {| f_base := f_base f; f_std := f_std f; f_vlog := f_vlog f; f_ver := f_ver f;
+     f_lock := c; f_lock_ino := f_lock_ino f; f_ino_next := f_ino_next f; f_data := f_data f |}.
 Definition bump (f : fs) : fs :=
-  {| f_base := f_base f; f_std := f_std f; f_vlog := f_vlog f; f_ver := f_ver f; f_lock := f_lock f; f_data := S (f_data f) |}.
+  {| f_base := f_base f; f_std := f_std f; f_vlog := f_vlog f; f_ver := f_ver f;
+     f_lock := f_lock f; f_lock_ino := f_lock_ino f; f_ino_next := f_ino_next f; f_data := S (f_data f) |}.
 Definition mk_base (f : fs) : fs :=
-  {| f_base := true; f_std := f_std f; f_vlog := f_vlog f; f_ver := f_ver f; f_lock := f_lock f; f_data := f_data f |}.
+  {| f_base := true; f_std := f_std f; f_vlog := f_vlog f; f_ver := f_ver f;
+     f_lock := f_lock f; f_lock_ino := f_lock_ino f; f_ino_next := f_ino_next f; f_data := f_data f |}.
 (* sstables, wal, manifest; vlog if enable_vlog; versioned_index if enable_versioning *)
 Definition mk_sub (f : fs) (o : oopts) : fs :=
   {| f_base := f_base f; f_std := true; f_vlog := f_vlog f || op_vlog o; f_ver := f_ver f || op_ver o;
-     f_lock := f_lock f; f_data := f_data f |}.
+     f_lock := f_lock f; f_lock_ino := f_lock_ino f; f_ino_next := f_ino_next f; f_data := f_data f |}.
 Definition dirs_eqb (a b : fs) : bool :=
   Bool.eqb (f_base a) (f_base b) && Bool.eqb (f_std a) (f_std b) && Bool.eqb (f_vlog a) (f_vlog b) && Bool.eqb (f_ver a) (f_ver b).
+(* open(LOCK, O_CREAT) finds no such name: a NEW, empty inode gets the name *)
+Definition create_lock (f : fs) : fs :=
+  {| f_base := f_base f; f_std := f_std f; f_vlog := f_vlog f; f_ver := f_ver f;
+     f_lock := LEmpty; f_lock_ino := f_ino_next f; f_ino_next := S (f_ino_next f); f_data := f_data f |}.
+(* unlink(LOCK): the name goes; the inode lives on for as long as somebody has it open *)
+Definition unlink_lock (f : fs) : fs :=
+  {| f_base := f_base f; f_std := f_std f; f_vlog := f_vlog f; f_ver := f_ver f;
+     f_lock := LAbsent; f_lock_ino := 0; f_ino_next := f_ino_next f; f_data := f_data f |}.
+(* a write (set_len, write) through a descriptor of inode i: seen under the name LOCK only if the name still
+   denotes that inode *)
+Definition wr_lock (f : fs) (i : nat) (c : lcontent) : fs :=
+  match f_lock f with
+  | LAbsent => f
+  | _ => if Nat.eqb (f_lock_ino f) i then set_lock f c else f
+  end.
 
 Inductive pc :=
 | PStart        (* Tree::new entered *)
@@ -76,6 +113,8 @@ Inductive pc :=
 | PCloned       (* file.try_clone(): a second descriptor of the same open file description *)
 | PWritten      (* pid written, the clone closed; acquire returned Ok *)
 | PLive         (* manifest/WAL/recovery/orphan clean-up done: the Tree was returned *)
+| PRestoring    (* Tree::restore_from_checkpoint on the live store: DatabaseCheckpoint::restore_from_checkpoint done
+                   (clear_current_state + the checkpoint's sub-directories copied back), in-memory state not yet reloaded *)
 | PClosing      (* Core::close: shutdown side effects done, lock not yet released *)
 | PClosed       (* lock released; the Tree handle still exists *)
 | PDropping     (* Tree dropped: Core::close started (spawned on the current runtime, or — repaired code, outside a
@@ -84,11 +123,18 @@ Inductive pc :=
 | PDetached.    (* code before the F28 repair only: Tree dropped outside a runtime, no close; CoreInner kept alive
                    by the background tasks.  Unreachable when detached_drop_closes = true *)
 
-Record opener := { o_proc : proc; o_opts : oopts; o_pc : pc; o_fds : nat }.
+(* o_ino: the inode the opener's LOCK descriptor(s) refer to (0 before open(LOCK)); every later lock / set_len / write
+   of the opener goes to THAT inode, whatever the name LOCK denotes by then *)
+Record opener := { o_proc : proc; o_opts : oopts; o_pc : pc; o_fds : nat; o_ino : nat }.
 Definition at_pc (r : opener) (p : pc) (fds : nat) : opener :=
-  {| o_proc := o_proc r; o_opts := o_opts r; o_pc := p; o_fds := fds |}.
+  {| o_proc := o_proc r; o_opts := o_opts r; o_pc := p; o_fds := fds; o_ino := o_ino r |}.
+Definition at_ino (r : opener) (p : pc) (fds : nat) (i : nat) : opener :=
+  {| o_proc := o_proc r; o_opts := o_opts r; o_pc := p; o_fds := fds; o_ino := i |}.
 
-Inductive dkind := KRecovery | KShutdown | KCommit.
+Inductive dkind := KRecovery | KShutdown | KCommit
+                 | KCheckpoint   (* create_checkpoint: memtables flushed (tables + manifest written), files copied out *)
+                 | KRestore      (* restore: data sub-directories removed and copied back from the checkpoint *)
+                 | KReload.      (* restore: manifest loaded, WAL reopened and replayed *)
 (* ghost log of what was done to the directory, oldest first *)
 Inductive event :=
 | EvInvalid (o : oid)                    (* validate() failed: the attempt ends *)
@@ -99,30 +145,51 @@ Inductive event :=
 | EvLockSet (o : oid)                    (* set_len(0) / write pid *)
 | EvData (o : oid) (k : dkind)           (* manifest / WAL / tables / value log read-modify-write *)
 | EvRelease (o : oid)                    (* last descriptor closed: the OS drops the lock *)
-| EvGone (o : oid).                      (* the opener's handle or process is gone *)
+| EvGone (o : oid)                       (* the opener's handle or process is gone *)
+| EvLockUnlink (o : oid).                (* the name LOCK removed from the directory *)
+
+(* the kernel's lock table: (inode, the opener whose open file description owns the exclusive lock on it) *)
+Definition ltable := list (nat * oid).
+Fixpoint lk_find (t : ltable) (i : nat) : option oid :=
+  match t with
+  | [] => None
+  | (j, o) :: t' => if Nat.eqb j i then Some o else lk_find t' i
+  end.
 
 Record state := {
   st_op : oid -> option opener;
-  st_flock : option oid;     (* the kernel's lock table for LOCK's inode: whose open file description owns it *)
+  st_flock : ltable;
   st_fs : fs;
   st_log : list event
 }.
-Definition s0 : state := {| st_op := fun _ => None; st_flock := None; st_fs := fs0; st_log := [] |}.
+Definition s0 : state := {| st_op := fun _ => None; st_flock := []; st_fs := fs0; st_log := [] |}.
+
+(* whose lock a NEW opener runs into: the owner of the lock on the inode that the name LOCK denotes now *)
+Definition lock_owner (s : state) : option oid :=
+  match f_lock (st_fs s) with
+  | LAbsent => None
+  | _ => lk_find (st_flock s) (f_lock_ino (st_fs s))
+  end.
 
 Definition upd (m : oid -> option opener) (o : oid) (x : option opener) : oid -> option opener :=
   fun y => if Nat.eqb y o then x else m y.
-(* closing every descriptor of o's open file description *)
-Definition unlock (h : option oid) (o : oid) : option oid :=
-  match h with Some x => if Nat.eqb x o then None else h | None => None end.
+(* closing every descriptor of o's open file description: its lock (on whatever inode) goes *)
+Definition unlock (t : ltable) (o : oid) : ltable := filter (fun e => negb (Nat.eqb (snd e) o)) t.
 Definition holds (h : option oid) (o : oid) : bool :=
   match h with Some x => Nat.eqb x o | None => false end.
 
-Definition mk (m : oid -> option opener) (h : option oid) (f : fs) (l : list event) : state :=
-  {| st_op := m; st_flock := h; st_fs := f; st_log := l |}.
+Definition mk (m : oid -> option opener) (t : ltable) (f : fs) (l : list event) : state :=
+  {| st_op := m; st_flock := t; st_fs := f; st_log := l |}.
 
 (* open(LOCK) with create (and truncate): what the file holds afterwards *)
 Definition lock_after_open (v : variant) (c : lcontent) : lcontent :=
   match c with LAbsent => LEmpty | _ => if trunc_on_open v then LEmpty else c end.
+(* ... and which inode that is: the one the name denotes, or a new one *)
+Definition open_lock (v : variant) (f : fs) : fs :=
+  match f_lock f with
+  | LAbsent => create_lock f
+  | c => set_lock f (lock_after_open v c)
+  end.
 (* create_directory_structure() as called before Core::new *)
 Definition fs_dirs (v : variant) (f : fs) (opts : oopts) : fs :=
   if subdirs_before_lock v then mk_sub (mk_base f) opts else mk_base f.
@@ -140,19 +207,21 @@ Definition step_opener (v : variant) (s : state) (o : oid) (r : opener) : state 
   | PDirs =>
     let c := f_lock f in
     let c' := lock_after_open v c in
-    mk (upd m o (Some (at_pc r POpened 1))) h (set_lock f c') (l ++ [EvLockOpen o (negb (lcontent_eqb c c'))])
+    let f' := open_lock v f in
+    mk (upd m o (Some (at_ino r POpened 1 (f_lock_ino f')))) h f' (l ++ [EvLockOpen o (negb (lcontent_eqb c c'))])
   | POpened =>
-    match h with
-    | None => mk (upd m o (Some (at_pc r PLocked 1))) (Some o) f (l ++ [EvAcquire o])
+    match lk_find h (o_ino r) with
+    | None => mk (upd m o (Some (at_pc r PLocked 1))) ((o_ino r, o) :: h) f (l ++ [EvAcquire o])
     | Some _ => mk (upd m o None) h f (l ++ [EvRefused o])   (* `?` drops the File: descriptor closed *)
     end
-  | PLocked => mk (upd m o (Some (at_pc r PCleared 1))) h (set_lock f LEmpty) (l ++ [EvLockSet o])
+  | PLocked => mk (upd m o (Some (at_pc r PCleared 1))) h (wr_lock f (o_ino r) LEmpty) (l ++ [EvLockSet o])
   | PCleared => mk (upd m o (Some (at_pc r PCloned 2))) h f l
-  | PCloned => mk (upd m o (Some (at_pc r PWritten 1))) h (set_lock f (LPid (o_proc r))) (l ++ [EvLockSet o])
+  | PCloned => mk (upd m o (Some (at_pc r PWritten 1))) h (wr_lock f (o_ino r) (LPid (o_proc r))) (l ++ [EvLockSet o])
   | PWritten =>
     let f1 := if subdirs_before_lock v then f else mk_sub f (o_opts r) in
     mk (upd m o (Some (at_pc r PLive 1))) h (bump f1) (l ++ [EvData o KRecovery])
   | PLive => s
+  | PRestoring => mk (upd m o (Some (at_pc r PLive 1))) h (bump f) (l ++ [EvData o KReload])
   | PClosing => mk (upd m o (Some (at_pc r PClosed 0))) (unlock h o) f (l ++ [EvRelease o])
   | PClosed => s
   | PDropping => mk (upd m o (Some (at_pc r PDropClosing 1))) h (bump f) (l ++ [EvData o KShutdown])
@@ -169,21 +238,24 @@ Inductive op :=
 | ORuntimeGone (o : oid)                      (* the runtime of a detached opener shuts down: LockFile dropped (a no-op
                                                  for the repaired code: nothing is left on that runtime) *)
 | OCommit (o : oid)                           (* a transaction commits on a live store *)
-| OKill (p : proc).                           (* process p dies (SIGKILL, exit, crash): all its descriptors close *)
+| OKill (p : proc)                            (* process p dies (SIGKILL, exit, crash): all its descriptors close *)
+| OCheckpoint (o : oid)                       (* tree.create_checkpoint(side directory) on a live store: flush + copy out;
+                                                 nothing but the store's own files in the data sub-directories is written *)
+| ORestore (o : oid).                         (* tree.restore_from_checkpoint(side directory) on a live store, first half:
+                                                 DatabaseCheckpoint::restore_from_checkpoint = clear_current_state (remove the
+                                                 data sub-directories — and, if restore_keeps_lock_name is false, every
+                                                 regular file at the top level: LOCK) + copy the checkpoint's back; the
+                                                 reload is the opener's next OStep.  The store stays open throughout. *)
 
-(* death of process p: every opener of p vanishes; if one of them owns the lock, it is dropped *)
+(* death of process p: every opener of p vanishes; the locks of their open file descriptions are dropped *)
 Definition kill_map (m : oid -> option opener) (p : proc) : oid -> option opener :=
   fun y => match m y with Some r => if Nat.eqb (o_proc r) p then None else Some r | None => None end.
-Definition kill_flock (m : oid -> option opener) (h : option oid) (p : proc) : option oid :=
-  match h with
-  | Some x => match m x with Some r => if Nat.eqb (o_proc r) p then None else h | None => h end
-  | None => None
-  end.
-Definition kill_log (m : oid -> option opener) (h : option oid) (p : proc) : list event :=
-  match h with
-  | Some x => match m x with Some r => if Nat.eqb (o_proc r) p then [EvRelease x; EvGone x] else [] | None => [] end
-  | None => []
-  end.
+Definition dies (m : oid -> option opener) (p : proc) (o : oid) : bool :=
+  match m o with Some r => Nat.eqb (o_proc r) p | None => false end.
+Definition kill_flock (m : oid -> option opener) (t : ltable) (p : proc) : ltable :=
+  filter (fun e => negb (dies m p (snd e))) t.
+Definition kill_log (m : oid -> option opener) (t : ltable) (p : proc) : list event :=
+  flat_map (fun e => if dies m p (snd e) then [EvRelease (snd e); EvGone (snd e)] else []) t.
 
 Definition apply_op (v : variant) (s : state) (a : op) : state :=
   let m := st_op s in let h := st_flock s in let f := st_fs s in let l := st_log s in
@@ -191,7 +263,7 @@ Definition apply_op (v : variant) (s : state) (a : op) : state :=
   | OBegin o p opts =>
     match m o with
     | Some _ => s
-    | None => mk (upd m o (Some {| o_proc := p; o_opts := opts; o_pc := PStart; o_fds := 0 |})) h f l
+    | None => mk (upd m o (Some {| o_proc := p; o_opts := opts; o_pc := PStart; o_fds := 0; o_ino := 0 |})) h f l
     end
   | OStep o => match m o with Some r => step_opener v s o r | None => s end
   | OClose o =>
@@ -242,6 +314,25 @@ Definition apply_op (v : variant) (s : state) (a : op) : state :=
     | None => s
     end
   | OKill p => mk (kill_map m p) (kill_flock m h p) f (l ++ kill_log m h p)
+  | OCheckpoint o =>
+    match m o with
+    | Some r => match o_pc r with
+                | PLive => mk m h (bump f) (l ++ [EvData o KCheckpoint])
+                | _ => s
+                end
+    | None => s
+    end
+  | ORestore o =>
+    match m o with
+    | Some r => match o_pc r with
+                | PLive =>
+                  if restore_keeps_lock_name v
+                  then mk (upd m o (Some (at_pc r PRestoring 1))) h (bump f) (l ++ [EvData o KRestore])
+                  else mk (upd m o (Some (at_pc r PRestoring 1))) h (bump (unlink_lock f)) (l ++ [EvData o KRestore; EvLockUnlink o])
+                | _ => s
+                end
+    | None => s
+    end
   end.
 
 Definition run (v : variant) (ops : list op) (s : state) : state := fold_left (apply_op v) ops s.
@@ -253,6 +344,8 @@ Definition drop_ops (o : oid) : list op := [ODrop o; OStep o; OStep o].
 (* drop(tree) on a thread outside any runtime, until drop() returns: the repaired code has closed the store by
    then (block_on); for the code before the repair the two steps are no-ops (PDetached does not step) *)
 Definition drop_detached_ops (o : oid) : list op := [ODropDetached o; OStep o; OStep o].
+(* tree.restore_from_checkpoint(..) until it returns: files, then the reload *)
+Definition restore_ops (o : oid) : list op := [ORestore o; OStep o].
 
 Definition pc_of (s : state) (o : oid) : option pc := match st_op s o with Some r => Some (o_pc r) | None => None end.
 Definition is_live (s : state) (o : oid) : bool := match pc_of s o with Some PLive => true | _ => false end.
@@ -305,3 +398,24 @@ Definition do_commit (v : variant) (s : state) (o : oid) : state * answer :=
   | _ => (s, ANoop)
   end.
 Definition do_kill (v : variant) (s : state) (p : proc) : state := run v [OKill p] s.
+(* checkpoint / restore of a live store (the scripts call them on live stores only) *)
+Definition do_checkpoint (v : variant) (s : state) (o : oid) : state * answer :=
+  match pc_of s o with
+  | Some PLive => (run v [OCheckpoint o] s, AOk)
+  | _ => (s, ANoop)
+  end.
+Definition do_restore (v : variant) (s : state) (o : oid) : state * answer :=
+  match pc_of s o with
+  | Some PLive => (run v (restore_ops o) s, AOk)
+  | _ => (s, ANoop)
+  end.
+(* is the inode that LOCK names now the one opener o opened (and, if it is a holder, locked)? *)
+Inductive lockid := IdSame | IdChanged | IdAbsent | IdNoOpener.
+Definition lock_identity (s : state) (o : oid) : lockid :=
+  match st_op s o with
+  | None => IdNoOpener
+  | Some r => match f_lock (st_fs s) with
+              | LAbsent => IdAbsent
+              | _ => if Nat.eqb (f_lock_ino (st_fs s)) (o_ino r) then IdSame else IdChanged
+              end
+  end.
